@@ -129,8 +129,13 @@ language-level string functions of `RustStr` (`trim`, `starts_with`, `ends_with`
                                  a failure is classified by which of three precise losses explain it
   (2) nesting:   `stepVerdict.level`  the level is Σ explicit + #opening pieces − #closing pieces (outside comments)
                  `lineIndentOk`  a line begun at level L starts with 2·L spaces (one level less for a closing piece)
+                 `bufferLineStep`  the property's literal reading: the level is Σ explicit + the nesting of the
+                                 buffer's own lines; a disagreement is known only when a line was assembled from
+                                 several fragment pieces and the level is the per-piece one
   (3) literal:   `stepVerdict.literal`, `neutralRel`  literal text changes no level and influences nothing but itself
   (4) balanced:  `stepVerdict.balanced`  a brace-balanced fragment restores the level
+`monitorAll` is what the check evaluates; after an `append_src` off a line boundary it keeps judging
+content (with the stale-indentation class), literal and the deindent/set_indent API (`offSyncVerdict`).
 -/
 namespace Witverif.Text.SourceSpec
 open RustStr
@@ -201,6 +206,8 @@ def lossCandidates : List Loss :=
 inductive ContentV
   | ok                -- content preserved
   | known (l : Loss)  -- not preserved; exactly explained by these applicable known losses
+  | stale (l : Loss)  -- not preserved; explained by indentation written in the middle of a line after an
+                      -- `append_src` that ended mid-line (stale `continuing_line`), plus these known losses
   | other             -- not preserved and not explained: a new kind of content loss
 deriving Repr, DecidableEq
 
@@ -384,6 +391,106 @@ def monitor (tr : Track) (prev : Obs) : List (Req × Option Obs) → List Verdic
   | (.append _ _, none) :: _ => [{}]     -- the panic happened while building the sub-buffer
   | (r, none) :: _ => [{ api := !tr.sync || !tr.levelOk || mustPanic tr r }]
   | (r, some o) :: rest => stepVerdict tr prev r o :: monitor (trackReq tr r) o rest
+
+
+/-! ### the whole-buffer-line reading of (2), and what remains judged after an off-boundary `append_src`
+
+The property's literal wording speaks of *lines*: "braces that open at line ends and close at line
+starts".  Read over the lines of the buffer (not the pieces of the fragments), the nesting level
+is `bufferLevel`.  The code follows the per-piece reading; the two agree when no buffer line is
+assembled from several fragment pieces (`Aux.split`), and differ e.g. for
+`push_str("if x {"); push_str(" y }\n")` (level 1, although no buffer line ends in `{`). -/
+
+/-- what one complete buffer line contributes to the nesting level -/
+def lineDelta (l : List Char) : Int :=
+  if startsWith (trim l) ['/', '/'] then 0
+  else (if endsWith (trim l) ['{'] then 1 else 0) - (if startsWith (trim l) ['}'] then 1 else 0)
+
+/-- nesting level implied by the lines of a buffer: +1 per line ending in `{`, −1 per line
+starting with `}`, outside `//` comment lines -/
+def bufferLevel (s : List Char) : Int := (splitNl s).foldl (fun a p => a + lineDelta p.1) 0
+
+/-- Spec-side bookkeeping next to `Track` (from the requests only). -/
+structure Aux where
+  stale : Bool := false     -- an `append_src` left the buffer mid-line and no piece was appended since
+  explicit : Int := 0       -- Σ indent − Σ deindent
+  lineView : Bool := true   -- only push_str / indent / deindent so far: the buffer-line reading applies
+  split : Bool := false     -- some buffer line was assembled from more than one fragment piece
+deriving Repr, DecidableEq
+
+def auxReq (tr : Track) (ax : Aux) : Req → Aux
+  | .text interp t =>
+    { ax with stale := if t.isEmpty then ax.stale else false,
+              lineView := ax.lineView && interp,
+              split := ax.split || (tr.midLine && !t.isEmpty) }
+  | .indent n => { ax with explicit := ax.explicit + n }
+  | .deindent n => { ax with explicit := ax.explicit - n }
+  | .setIndent _ => { ax with lineView := false }
+  | .append sub _ =>
+    { ax with lineView := false,
+              stale := if sub.getLast? == some '\n' then false else if sub.isEmpty then ax.stale else true }
+
+inductive BufV
+  | na          -- the buffer-line reading does not apply here (literal text, set_indent, append_src, mid-line, …)
+  | ok
+  | knownSplit  -- differs, the history has a split line, and the level is the per-piece level
+  | other
+deriving Repr, DecidableEq
+
+/-- Monitor (2, whole-buffer-line reading) after a request; `tr'`, `ax'` are the states after it. -/
+def bufferLineStep (tr' : Track) (ax' : Aux) (o : Obs) : BufV :=
+  if !(ax'.lineView && tr'.sync && tr'.levelOk) || tr'.midLine then .na
+  else if (o.indent : Int) = ax'.explicit + bufferLevel o.s then .ok
+  else if ax'.split && decide ((o.indent : Int) = tr'.level) then .knownSplit
+  else .other
+
+/-- Monitor (1) where an `append_src` may have left the line state stale: if the plain check
+fails, allow for `2·level` spaces written in front of the fragment. -/
+def contentStepAt (stale : Bool) (prevIndent : Nat) (prev out t : List Char) (interp : Bool) : ContentV :=
+  match contentStep prev out t interp with
+  | .other =>
+    if stale && !(firstLine (crlfToLf t)).isEmpty then
+      match contentStep (prev ++ spaces (2 * prevIndent)) out t interp with
+      | .ok => .stale Loss.none
+      | .known l => .stale l
+      | v => v
+    else .other
+  | v => v
+
+/-- What is still judged once an `append_src` happened off a line boundary: content (1), literal
+(3a) and the `deindent`/`set_indent` API on the observed level.  (Nesting is not: the comment and
+line state of the appended buffer are not observable.) -/
+def offSyncVerdict (tr : Track) (ax : Aux) (prev : Obs) (r : Req) (o : Obs) : Verdict :=
+  match r with
+  | .text interp t =>
+    { content := contentStepAt (ax.stale && !tr.midLine) prev.indent prev.s o.s t interp,
+      literal := interp || o.indent == prev.indent }
+  | .indent _ => { content := if o.s == prev.s then .ok else .other }
+  | .deindent n => { content := if o.s == prev.s then .ok else .other, api := !decide (prev.indent < n) }
+  | .setIndent _ => { content := if o.s == prev.s then .ok else .other, api := o.old == some prev.indent }
+  | .append sub _ => { content := if o.s == prev.s ++ sub then .ok else .other }
+
+def stepVerdictAll (tr : Track) (ax : Aux) (prev : Obs) (r : Req) (o : Obs) : Verdict :=
+  if tr.sync && (trackReq tr r).sync then stepVerdict tr prev r o else offSyncVerdict tr ax prev r o
+
+structure VerdictAll where
+  base : Verdict := {}
+  bufferLine : BufV := .na
+deriving Repr, DecidableEq
+
+def VerdictAll.goodModuloKnown (v : VerdictAll) : Bool := v.base.goodModuloKnown && v.bufferLine != .other
+def VerdictAll.good (v : VerdictAll) : Bool := v.base.good && (v.bufferLine == .ok || v.bufferLine == .na)
+
+/-- The complete monitor of a history (what the check evaluates on the implementation). -/
+def monitorAll (tr : Track) (ax : Aux) (prev : Obs) : List (Req × Option Obs) → List VerdictAll
+  | [] => []
+  | (.append _ _, none) :: _ => [{}]
+  | (.deindent n, none) :: _ => [{ base := { api := decide (prev.indent < n) } }]
+  | (_, none) :: _ => [{ base := { api := false } }]      -- nothing else may panic
+  | (r, some o) :: rest =>
+    { base := stepVerdictAll tr ax prev r o,
+      bufferLine := bufferLineStep (trackReq tr r) (auxReq tr ax r) o }
+      :: monitorAll (trackReq tr r) (auxReq tr ax r) o rest
 
 /-! ### (3b) literal text influences nothing but itself (metamorphic) -/
 
